@@ -1,0 +1,30 @@
+//! Hooks for external verification harnesses. Compiled only with `--cfg bp7_verif`.
+use std::cell::{Cell, RefCell};
+
+thread_local! {
+    static CLOCK_MS: Cell<Option<u64>> = const { Cell::new(None) };
+    #[allow(clippy::type_complexity)]
+    static SCHED: RefCell<Option<Box<dyn FnMut(u32)>>> = const { RefCell::new(None) };
+}
+
+/// Override (or restore with `None`) the value `helpers::ts_ms` returns on this thread.
+pub fn set_clock_ms(ms: Option<u64>) {
+    CLOCK_MS.with(|c| c.set(ms));
+}
+
+pub fn clock_ms() -> Option<u64> {
+    CLOCK_MS.with(|c| c.get())
+}
+
+/// Install (or remove) a callback invoked at the numbered scheduling points of this thread.
+pub fn set_sched(f: Option<Box<dyn FnMut(u32)>>) {
+    SCHED.with(|s| *s.borrow_mut() = f);
+}
+
+pub fn sched_point(id: u32) {
+    SCHED.with(|s| {
+        if let Some(f) = s.borrow_mut().as_mut() {
+            f(id)
+        }
+    });
+}
